@@ -113,6 +113,13 @@ func MonC01() *Mon {
 				early[n][p.Hash()] = !(p.Ht == n.D.BlockIndex && p.V == n.D.ViewNumber && n.D.RequestSentOrReceived())
 			}
 			pend[n] = nil
+			// a commit of a view the node has not reached is kept aside until that view is entered (where the kept
+			// proposal is replayed first): one that sits in the table right after its delivery was not stored by D1's path
+			if c.Kind == CReceive && c.P.T == dbft.CommitType && n.D.Validators != nil && c.P.Ht == n.D.BlockIndex && c.P.V > n.D.ViewNumber && int(c.P.Idx) < len(n.D.CommitPayloads) {
+				if cp := n.D.CommitPayloads[c.P.Idx]; cp != nil && cp.Hash() == c.P.Hash() {
+					early[n][c.P.Hash()] = false
+				}
+			}
 		},
 		ProcessBlock: func(n *Node, b *vt.Block, err error) {
 			if err != nil || n.Faulty {
@@ -202,6 +209,18 @@ func MonC02() *Mon {
 				early[n][key(p)] = !(p.Ht == n.D.BlockIndex && p.V == n.D.ViewNumber && n.D.RequestSentOrReceived())
 			}
 			pend[n] = nil
+			// (as in MonC01: a (pre)commit of a view not reached yet that sits in the table right after its delivery)
+			if c.Kind == CReceive && (c.P.T == dbft.CommitType || c.P.T == dbft.PreCommitType) && n.D.Validators != nil && c.P.Ht == n.D.BlockIndex && c.P.V > n.D.ViewNumber {
+				list := n.D.CommitPayloads
+				if c.P.T == dbft.PreCommitType {
+					list = n.D.PreCommitPayloads
+				}
+				if int(c.P.Idx) < len(list) {
+					if cp := list[c.P.Idx]; cp != nil && cp.Hash() == c.P.Hash() {
+						early[n][key(c.P)] = false
+					}
+				}
+			}
 		},
 		ProcessBlock: func(n *Node, b *vt.Block, err error) {
 			if n.Faulty {
